@@ -236,6 +236,11 @@ def h_neighbors(c0: int, c1: int, c2: int, c3: int, d0: int, d1: int, opt: int) 
     sym = opt in (1, 3, 5)
     adj = opt in (2, 3)
     move = opt in (4, 5)
+    if os.environ.get("VERIF_PRIORB"):
+        # history: a builder of the same size with ANOTHER adjacency neighbourhood (diagonals) proposed candidates earlier in this process
+        pb = ArrayBuilder2D(H, W, choice, default=default, disallow_adjacent=[(-1, -1), (1, 1), (-1, 1), (1, -1)])
+        _with_feed([d1, d0])
+        list(pb.candidates(_grid([default] * (H * W), H, W)))
     b = ArrayBuilder2D(H, W, choice, default=default, symmetry=sym, disallow_adjacent=adj, use_move=move)
     codes = [c0, c1, c2, c3][:H * W]
     cur = _grid([val(c) for c in codes], H, W)
